@@ -72,3 +72,47 @@ __CPROVER_ensures(__CPROVER_return_value != NULL ==> (__CPROVER_return_value == 
                   && vg_get_block_calls == 1 && vg_it_obj.first && vg_it_obj.valid && vg_it_obj.bi != NULL && vg_it_obj.index_iter != NULL))
 ;
 void h_reader_init_iter_dfcc(void) { struct mtbl_reader *r; const uint8_t *k; size_t l; struct reader_iter *it = reader_iter_init(r, k, l); VG_REACH("reader_iter_init returns"); }
+
+/* ---- the four constructors: plain iterator (own positioning) and the bounded lookups (reader_iter_init's contract as callee) */
+struct { unsigned calls; unsigned hint; } vg_ui;
+struct { unsigned calls; ubuf *u; const uint8_t *src; size_t n; } vg_ua;
+struct { unsigned calls; mtbl_iter_seek_func s; mtbl_iter_next_func n; mtbl_iter_free_func f; void *clos; struct mtbl_iter *ret; } vg_ii;
+static ubuf vg_kbuf;
+ubuf *ubuf_init__cap(unsigned hint) __CPROVER_requires(vg_ui.calls == 0) __CPROVER_assigns(__CPROVER_object_whole(&vg_ui)) __CPROVER_ensures(vg_ui.calls == 1 && vg_ui.hint == hint && __CPROVER_return_value == &vg_kbuf) ;
+void ubuf_append__cap(ubuf *u, uint8_t const *e, size_t n) __CPROVER_requires(vg_ua.calls == 0) __CPROVER_assigns(__CPROVER_object_whole(&vg_ua)) __CPROVER_ensures(vg_ua.calls == 1 && vg_ua.u == u && vg_ua.src == e && vg_ua.n == n) ;
+struct mtbl_iter *mtbl_iter_init__cap(mtbl_iter_seek_func s, mtbl_iter_next_func n, mtbl_iter_free_func f, void *clos)
+__CPROVER_requires(vg_ii.calls == 0) __CPROVER_assigns(__CPROVER_object_whole(&vg_ii))
+__CPROVER_ensures(vg_ii.calls == 1 && vg_ii.s == s && vg_ii.n == n && vg_ii.f == f && vg_ii.clos == clos && __CPROVER_return_value == vg_ii.ret && vg_ii.ret != NULL) ;
+#define VG_CTOR_REQ \
+__CPROVER_requires(__CPROVER_is_fresh(clos, sizeof(struct mtbl_reader))) \
+__CPROVER_requires(vg_fresh_blk != NULL && vg_fresh_bi != NULL && vg_get_block_calls == 0 && vg_frees == 0 && vg_ui.calls == 0 && vg_ua.calls == 0 && vg_ii.calls == 0) \
+__CPROVER_assigns(__CPROVER_object_whole(&vg_it_obj), vg_blk_ptr, vg_blk_off, vg_get_block_calls, vg_frees, __CPROVER_object_whole(&vg_ui), __CPROVER_object_whole(&vg_ua), __CPROVER_object_whole(&vg_ii))
+#define VG_CTOR_ENS(TYPE) \
+__CPROVER_ensures(__CPROVER_return_value == NULL ==> (vg_ii.calls == 0 && vg_frees == 1)) \
+__CPROVER_ensures(__CPROVER_return_value != NULL ==> (__CPROVER_return_value == vg_ii.ret && vg_ii.clos == (void *)&vg_it_obj && vg_ii.s == reader_iter_seek && vg_ii.n == reader_iter_next && vg_ii.f == reader_iter_free \
+                  && vg_it_obj.it_type == (TYPE) && VG_RI1(&vg_it_obj) && vg_it_obj.b != NULL && vg_it_obj.first && vg_it_obj.valid))
+struct mtbl_iter *reader_iter__spec(void *clos)
+VG_CTOR_REQ
+VG_CTOR_ENS(READER_ITER_TYPE_ITER)
+__CPROVER_ensures(__CPROVER_return_value != NULL ==> (vg_it_obj.block_offset == vg_dec_off && vg_get_block_calls == 1))
+;
+/* the bound of a lookup is a private copy of exactly the caller's bytes: key (get), prefix (get_prefix), key1 (get_range) */
+struct mtbl_iter *reader_get__spec(void *clos, const uint8_t *key, size_t len_key)
+VG_CTOR_REQ
+VG_CTOR_ENS(READER_ITER_TYPE_GET)
+__CPROVER_ensures(__CPROVER_return_value != NULL ==> (vg_it_obj.k == &vg_kbuf && vg_ua.calls == 1 && vg_ua.u == &vg_kbuf && vg_ua.src == key && vg_ua.n == len_key))
+;
+struct mtbl_iter *reader_get_prefix__spec(void *clos, const uint8_t *key, size_t len_key)
+VG_CTOR_REQ
+VG_CTOR_ENS(READER_ITER_TYPE_GET_PREFIX)
+__CPROVER_ensures(__CPROVER_return_value != NULL ==> (vg_it_obj.k == &vg_kbuf && vg_ua.calls == 1 && vg_ua.u == &vg_kbuf && vg_ua.src == key && vg_ua.n == len_key))
+;
+struct mtbl_iter *reader_get_range__spec(void *clos, const uint8_t *key0, size_t len_key0, const uint8_t *key1, size_t len_key1)
+VG_CTOR_REQ
+VG_CTOR_ENS(READER_ITER_TYPE_GET_RANGE)
+__CPROVER_ensures(__CPROVER_return_value != NULL ==> (vg_it_obj.k == &vg_kbuf && vg_ua.calls == 1 && vg_ua.u == &vg_kbuf && vg_ua.src == key1 && vg_ua.n == len_key1))
+;
+void h_reader_iter_ctor_dfcc(void) { void *c; struct mtbl_iter *it = reader_iter(c); VG_REACH("reader_iter returns"); }
+void h_reader_get_ctor_dfcc(void) { void *c; const uint8_t *k; size_t l; struct mtbl_iter *it = reader_get(c, k, l); VG_REACH("reader_get returns"); }
+void h_reader_get_prefix_ctor_dfcc(void) { void *c; const uint8_t *k; size_t l; struct mtbl_iter *it = reader_get_prefix(c, k, l); VG_REACH("reader_get_prefix returns"); }
+void h_reader_get_range_ctor_dfcc(void) { void *c; const uint8_t *k, *k1; size_t l, l1; struct mtbl_iter *it = reader_get_range(c, k, l, k1, l1); VG_REACH("reader_get_range returns"); }
